@@ -79,6 +79,22 @@ def grandpaMessageTy : Ty :=
     (.enumCons 3 catchUpRequestTy (.enumCons 4 catchUpResponseTy .enumNil))))
 def grandpaHandshakeTy : Ty := struct [u8]
 
+/-- an element of `[]runtime.Header` (a Go INTERFACE type): `unmarshal` has no concrete type to
+    decode into and returns `ErrUnsupportedType` without reading (after the C33 fix to pkg/scale;
+    before it, a nil pointer dereference) — the variant-less enum decodes nothing and always fails -/
+def ifaceTy : Ty := .enumNil
+/-- `finality-grandpa SignedPrecommit[H256, uint64, Signature, Public]` -/
+def signedPrecommitTy : Ty := struct [struct [hashT, u64], bytesN 64, bytesN 32]
+/-- `primitives.GrandpaJustification{Round; Commit{TargetHash; TargetNumber; Precommits}; VoteAncestries}`
+    wrapped in `consensus_grandpa.GrandpaJustification{Justification}` (`hash.H256` has a custom
+    `UnmarshalSCALE` that reads `[32]byte`) -/
+def clientJustificationTy : Ty :=
+  struct [struct [u64, struct [hashT, u64, .seq signedPrecommitTy], .seq ifaceTy]]
+/-- lib/grandpa `WarpSyncFragment{Header types.Header; Justification}` -/
+def warpFragmentTy : Ty := struct [headerTy, clientJustificationTy]
+/-- lib/grandpa `WarpSyncProof{Proofs; IsFinished}` (`proofsLength` is unexported) -/
+def warpProofTy : Ty := struct [.seq warpFragmentTy, .prim .bool]
+
 /-! ## outcomes and messages -/
 
 inductive Out (α : Type)
@@ -115,16 +131,26 @@ structure BlockDataMsg where
   justification : Option Bytes
 deriving Repr, BEq, Inhabited
 
+/-- `messages.KeyValueStateEntry` -/
+structure KVEntry where
+  root : Bytes
+  entries : List (Bytes × Bytes)
+  complete : Bool
+deriving Repr, BEq, DecidableEq, Inhabited
+
 inductive Msg
   | scale (v : Val)
   | raw (b : Bytes)
   | unit
   | blockReq (m : BlockReqMsg)
   | blockResp (ds : List BlockDataMsg)
+  | stateReq (block : Bytes) (start : List Bytes) (noProof : Bool)
+  | stateResp (entries : List KVEntry) (proof : Bytes)
 deriving Repr, BEq, Inhabited
 
 inductive Kind
   | ba | bah | tx | txh | cons | lreq | lresp | warp | breq | bresp | body | gmsg | ghs
+  | sreq | sresp | wproof
 deriving Repr, DecidableEq, Inhabited
 
 /-- the SCALE destination type of the kinds that are a plain `scale.Unmarshal` -/
@@ -138,6 +164,7 @@ def Kind.ty : Kind → Option Ty
   | .ghs => some grandpaHandshakeTy
   | .gmsg => some grandpaMessageTy
   | .body => some bodyTy
+  | .wproof => some warpProofTy
   | _ => none
 
 /-! ## decoders -/
@@ -278,6 +305,91 @@ def decodeBlockResponse (bs : Bytes) : Out Msg :=
       | .panic => .panic
       | .ok ms => .ok (.blockResp ms)
 
+/-! ### state request / response (dot/network/messages/state.go) -/
+
+/-- `message StateRequest { bytes block = 1; repeated bytes start = 2; bool no_proof = 3; }` -/
+structure StateReqP where
+  block : Bytes
+  start : List Bytes
+  noProof : Bool
+deriving Repr, DecidableEq, Inhabited
+
+def StateReqP.step (m : StateReqP) (f : WField) : StateReqP :=
+  match f.num, f.val with
+  | 1, .len b => { m with block := b }
+  | 2, .len b => { m with start := m.start ++ [b] }
+  | 3, .varint n => { m with noProof := n != 0 }
+  | _, _ => m
+
+def StateReqP.ofFields (fs : List WField) : StateReqP := fs.foldl StateReqP.step ⟨[], [], false⟩
+
+def StateReqP.toFields (m : StateReqP) : List WField :=
+  optBytes 1 m.block ++ (m.start.map (fun b => (⟨2, .len b⟩ : WField)) ++ flag 3 m.noProof)
+
+/-- `StateRequest.Decode` -/
+def decodeStateRequest (bs : Bytes) : Out Msg :=
+  match goParse bs with
+  | none => .err
+  | some fs =>
+    let p := StateReqP.ofFields fs
+    .ok (.stateReq (bytesToHash p.block) p.start p.noProof)
+
+/-- `message StateEntry { bytes key = 1; bytes value = 2; }` -/
+def stateEntryStep (p : Bytes × Bytes) (f : WField) : Bytes × Bytes :=
+  match f.num, f.val with
+  | 1, .len b => (b, p.2)
+  | 2, .len b => (p.1, b)
+  | _, _ => p
+
+/-- last occurrence of a singular `bytes` field -/
+def lastLen (k : Nat) (fs : List WField) : Bytes :=
+  fs.foldl (fun acc f => match f.val with | .len b => if f.num = k then b else acc | .varint _ => acc) []
+
+/-- last occurrence of a singular `bool` field -/
+def lastBool (k : Nat) (fs : List WField) : Bool :=
+  fs.foldl (fun acc f => match f.val with | .varint n => if f.num = k then n != 0 else acc | .len _ => acc) false
+
+/-- `repeated StateEntry entries = 2` of a `KeyValueStateEntry` -/
+def stateEntriesOf : List WField → Option (List (Bytes × Bytes))
+  | [] => some []
+  | f :: fs =>
+    match f.num, f.val with
+    | 2, .len b =>
+      match goParse b with
+      | none => none
+      | some gs => (stateEntriesOf fs).map (fun es => gs.foldl stateEntryStep ([], []) :: es)
+    | _, _ => stateEntriesOf fs
+
+/-- `message KeyValueStateEntry { bytes state_root = 1; repeated StateEntry entries = 2; bool complete = 3; }`
+    and the copy loop of `StateResponse.Decode` -/
+def kvEntryOf (gs : List WField) : Option KVEntry :=
+  match stateEntriesOf gs with
+  | none => none
+  | some es => some ⟨bytesToHash (lastLen 1 gs), es, lastBool 3 gs⟩
+
+/-- `repeated KeyValueStateEntry entries = 1` of a `StateResponse` -/
+def kvEntriesOf : List WField → Option (List KVEntry)
+  | [] => some []
+  | f :: fs =>
+    match f.num, f.val with
+    | 1, .len b =>
+      match goParse b with
+      | none => none
+      | some gs =>
+        match kvEntryOf gs with
+        | none => none
+        | some e => (kvEntriesOf fs).map (fun es => e :: es)
+    | _, _ => kvEntriesOf fs
+
+/-- `StateResponse.Decode` (`message StateResponse { repeated KeyValueStateEntry entries = 1; bytes proof = 2; }`) -/
+def decodeStateResponse (bs : Bytes) : Out Msg :=
+  match goParse bs with
+  | none => .err
+  | some fs =>
+    match kvEntriesOf fs with
+    | none => .err
+    | some es => .ok (.stateResp es (lastLen 2 fs))
+
 def scaleMsg (o : Out Val) : Out Msg :=
   match o with
   | .ok v => .ok (.scale v)
@@ -304,6 +416,9 @@ def decode (k : Kind) (bs : Bytes) : Out Msg :=
   | .lresp => scaleMsg (unmarshalTop lightResponseTy bs)
   | .warp => scaleMsg (unmarshalTop warpTy bs)
   | .ghs => scaleMsg (unmarshalTop grandpaHandshakeTy bs)
+  | .sreq => decodeStateRequest bs
+  | .sresp => decodeStateResponse bs
+  | .wproof => scaleMsg (unmarshalTop warpProofTy bs)         -- first statement of WarpSyncProofProvider.Verify
 
 /-! ## encoders (`Encode()` / `ToConsensusMessage()` of the decoded message) -/
 
@@ -345,6 +460,7 @@ def encode (k : Kind) (m : Msg) : Bytes :=
   | .cons, .raw b => b
   | .breq, .blockReq r => (blockReqToProto r).encodeGo
   | .bresp, .blockResp ds => (Proto.BlockResponse.mk (ds.map blockDataToProto)).encode
+  | .sreq, .stateReq b st np => encFields (StateReqP.toFields ⟨b, st, np⟩)   -- `StateRequest.Encode`
   | k, .scale v => match k.ty with | some t => C11.marshal t v | none => []
   | _, _ => []
 
@@ -419,6 +535,13 @@ def msgCost (k : Kind) (bs : Bytes) : Cost :=
       | none => ⟨1, 0⟩
       | some ds => (blocksCost ds).add ⟨1, 0⟩
   | .body => if bs = [] then ⟨1, 0⟩ else cost bodyTy bs
+  | .sreq => ⟨1, 0⟩
+  | .sresp =>
+    match goParse bs with
+    | none => ⟨1, 0⟩
+    | some fs => match kvEntriesOf fs with
+      | none => ⟨1, 0⟩
+      | some es => ⟨1 + (es.map (fun e => 1 + e.entries.length)).sum, 0⟩
   | k => match k.ty with | some t => cost t bs | none => ⟨1, 0⟩
 
 /-- the linear allocation budget the harness measures against: `2*(64KiB + 256*len)` -/
